@@ -11,6 +11,7 @@ import (
 
 	"github.com/my-cloud/ruthenium/validatornode/application"
 	"github.com/my-cloud/ruthenium/validatornode/application/network"
+	"github.com/my-cloud/ruthenium/validatornode/infrastructure/p2p"
 )
 
 // C17: the real Neighborhood with a scripted SenderCreator (unreachable subsets, DNS names
@@ -34,7 +35,53 @@ func (c *scriptCreator) CreateSender(ip, port string) (application.Sender, error
 	return s, nil
 }
 
+type stubIpFinder struct {
+	mu   sync.Mutex
+	down map[string]bool
+}
+
+func (f *stubIpFinder) LookupIP(ip string) (string, error) {
+	f.mu.Lock()
+	defer f.mu.Unlock()
+	if f.down[ip] {
+		return "", errors.New("no such host")
+	}
+	return ip, nil
+}
+
+// factoryProbe: the real Neighborhood with the repository's own NeighborFactory (only the name
+// look-up is a stub). Two peers are known and reachable in the first round; before the second one
+// of them stops resolving: it must not be among the outbound peers any more.
+func factoryProbe(id string, out *Out, stats *Stats) {
+	finder := &stubIpFinder{down: map[string]bool{}}
+	factory := p2p.NewNeighborFactory(finder, 200*time.Millisecond, &CapLogger{})
+	nb := network.NewNeighborhood(factory, "127.0.0.1", "10600", 2, map[string]int{}, &ScriptWatch{fallback: func() int64 { return time.Now().UnixNano() }})
+	a, b := "127.0.0.2:10600", "127.0.0.3:10600"
+	nb.AddTargets([]string{a, b})
+	nb.Synchronize(0)
+	first := map[string]bool{}
+	for _, s := range nb.Senders() {
+		first[s.Target()] = true
+	}
+	if !first[a] || !first[b] {
+		out.Violation("C17", id, fmt.Sprintf("factory-round\twith the real sender factory two known reachable peers are not both selected: %v", first))
+	}
+	finder.mu.Lock()
+	finder.down["127.0.0.2"] = true
+	finder.mu.Unlock()
+	nb.AddTargets([]string{a, b})
+	nb.Synchronize(0)
+	for _, s := range nb.Senders() {
+		if s.Target() == a {
+			out.Violation("C17", id, "unreachable-selected\ta peer whose name no longer resolves is still among the outbound peers (real sender factory)")
+		}
+	}
+	stats.Count("factory-probe")
+	time.Sleep(50 * time.Millisecond) // the announcements to the two closed ports fail in their goroutines
+}
+
 func runNetSuite(seed uint64, n int, out *Out, stats *Stats) {
+	factoryProbe(fmt.Sprintf("nb%d_factory", seed), out, stats)
 	for i := 0; i < n; i++ {
 		id := fmt.Sprintf("nb%d_%d", seed, i)
 		r := NewRng(seed*15485863 + uint64(i))
